@@ -509,8 +509,8 @@ func (c *fileCtx) mutexPath(sel *ast.SelectorExpr) (expr string, isPtr bool, kin
 		return
 	}
 	kind = named.Obj().Name()
-	if kind != "Mutex" && kind != "RWMutex" && kind != "Pool" && kind != "WaitGroup" && kind != "Once" {
-		if kind == "Cond" || kind == "Map" {
+	if kind != "Mutex" && kind != "RWMutex" && kind != "Pool" && kind != "WaitGroup" && kind != "Once" && kind != "Cond" {
+		if kind == "Map" {
 			c.unmodelled(sel.Pos(), "sync."+kind+"."+sel.Sel.Name)
 		}
 		return "", false, "", false
@@ -597,6 +597,12 @@ func (c *fileCtx) call(n *ast.CallExpr) {
 		fn = "WGWait"
 	case "Once.Do":
 		fn = "OnceDo"
+	case "Cond.Wait":
+		fn = "CondWait"
+	case "Cond.Signal":
+		fn = "CondSignal"
+	case "Cond.Broadcast":
+		fn = "CondBroadcast"
 	default:
 		return
 	}
